@@ -1,6 +1,6 @@
 ---- MODULE MC_HedRules ----
 EXTENDS HedRules, Json
-KindsDef == {"p1", "p2", "v", "bad", "def", "on", "off", "dur", "del", "uq"}
+KindsDef == {"p1", "p2", "v", "ext", "bad", "def", "on", "off", "dur", "del", "uq"}
 SFlawsDef == {"none"}
 SFlawsAll == {"none", "PARENTHESES_MISMATCH", "TAG_EMPTY", "COMMA_MISSING"}
 Emit == PrintT("@@EMIT@@" \o ToJson([par |-> par, kind |-> kind, sflaw |-> sflaw, codes |-> Codes,
@@ -8,7 +8,7 @@ Emit == PrintT("@@EMIT@@" \o ToJson([par |-> par, kind |-> kind, sflaw |-> sflaw
 KindsStruct == {"p1", "def", "on", "off", "dur", "del", "uq"}
 \* deep sampling: only clean and single-violation trees are of interest (what the statement fixes)
 EmitFew == (Causes <= 1 /\ n >= 4) => Emit
-KindsDup == {"p1", "p2", "v", "def"}
+KindsDup == {"p1", "p2", "v", "ext", "def"}
 EmitDup == (n >= 6 /\ EmptyGroup = {} /\ \E x \in Repeated : IsGroup(x[2]) /\ Cardinality(Kids(x[2])) >= 2) => Emit
 KindsTemporal == {"p1", "p2", "def", "on", "off", "dur", "del"}
 \* a valid or single-cause tree that was built with at least one copy step and is large
@@ -29,5 +29,5 @@ BasesConfusable == {Tr(<<0, 1, 1, 3, 0, 5, 6, 6, 8>>, <<"g", "p1", "g", "p2", "g
                     Tr(<<0, 1, 2, 1, 4, 0, 6, 7, 7>>, <<"g", "g", "p1", "g", "p2", "g", "g", "p1", "p2">>),
                     Tr(<<0, 1, 2, 2, 4, 1, 6, 7, 7, 9>>, <<"g", "g", "p1", "g", "p2", "g", "g", "p1", "g", "p2">>),
                     Tr(<<0, 1, 1, 3, 0, 5, 5, 7, 8>>, <<"g", "p1", "g", "v", "g", "p1", "g", "g", "v">>)}
-KindsPlain == {"p1", "p2"}
+KindsPlain == {"p1", "p2", "ext"}
 ====
